@@ -365,3 +365,23 @@ Example guard_nonvacuous :
   guard demo_sketch = true /\ wf_order (stitch demo_sketch) = true /\
   length (stitch demo_sketch) = 10%nat /\ undeclared (stitch demo_sketch) = [].
 Proof. vm_compute. repeat split; reflexivity. Qed.
+
+(* ------------------------------------------------------------ nothing is lost or invented by the stitching *)
+
+Theorem stitch_complete sk k b :
+  In (k, b) (stitch sk) <->
+  (k = KInclude /\ In b (sk_includes sk)) \/ (k = KHelper /\ In b (sk_helpers sk)) \/
+  (k = KGlobal /\ In b (sk_globals sk)) \/ (k = KFunction /\ In b (sk_functions sk)) \/
+  (k = KUltra /\ In b (sk_ultras sk)) \/ (k = KSetup /\ b = sk_setup sk) \/ (k = KLoop /\ b = sk_loop sk).
+Proof.
+  unfold stitch, tag. rewrite !in_app_iff, !in_map_iff. cbn [In]. split.
+  - intros [(x & E & H)|[(x & E & H)|[(x & E & H)|[(x & E & H)|[(x & E & H)|[E|[E|[]]]]]]]];
+      inversion E; subst; tauto.
+  - intros [[-> H]|[[-> H]|[[-> H]|[[-> H]|[[-> H]|[[-> ->]|[-> ->]]]]]]]; eauto 12.
+Qed.
+
+Theorem stitch_length sk :
+  length (stitch sk) =
+  (length (sk_includes sk) + length (sk_helpers sk) + length (sk_globals sk) +
+   length (sk_functions sk) + length (sk_ultras sk) + 2)%nat.
+Proof. unfold stitch. rewrite !app_length, !map_length. cbn. lia. Qed.
